@@ -1,7 +1,7 @@
 (* C16 - channels are born with a founder, die with the last member, or come from config.
    Statements only; proofs in IRCP.JoinP and IRCP.ChanP. *)
 From IRC Require Import Str Wild Glob Parse Reply State Handlers.
-From IRCP Require Import JoinP ChanP.
+From IRCP Require Import JoinP ChanP InvDefs InvStep Reach.
 From stdpp Require Import gmap.
 
 (* a name that is not a channel: the check phase always says (join, create) - only the quota can refuse *)
@@ -82,6 +82,16 @@ Theorem C16_configured_ranks_on_join : forall nick co,
     ch_topic co' = ch_topic co /\ ch_preconf co' = ch_preconf co /\ ch_default co' = ch_default co.
 Proof. exact chan_add_user_default. Qed.
 
+(* in every reachable world - after any history of joins, parts, kicks, quits, kills, closes - a
+   channel that is not preconfigured has at least one member: channels die with their last member *)
+Theorem C16_no_empty_channel : forall cfg verify w ch co, reachable cfg verify w ->
+  chans (sh w) !! ch = Some co -> ch_preconf co = false -> ch_users co <> ∅.
+Proof.
+  intros cfg verify w ch co R Hco Hp. destruct (reachable_inv cfg verify w R) as [I _].
+  exact (is_ne (sh w) (iw_s w I) ch co Hco Hp).
+Qed.
+
+Print Assumptions C16_no_empty_channel.
 Print Assumptions C16_create_decision.
 Print Assumptions C16_create_effect.
 Print Assumptions C16_fresh_channel.
